@@ -53,6 +53,20 @@ def closed_input_set():
         for k in [k for k in c12.KT if k not in ("sp", "ht", "ff", "nl", "crlf")]:
             for pr in probes:
                 ins.append(("sv", "%s\n%s\n%s\n" % (h, c12.KT[k], pr), "directive-in-trivia"))
+    # keyword regions that open or close INSIDE trivia the grammar reads more than once (the white space behind the ';' of a
+    # header is read by every header alternative): a directive parser whose result depends on the depth of the version
+    # stack gives a different answer when it is re-executed after an eviction (round-2 seeded change)
+    units = [("module m ( a , b ) ;", "input a ; output b ; endmodule"), ("module m ( input a ) ;", "wire w ; endmodule"), ("module m ;", "wire w ; endmodule"),
+             ("interface i ( a ) ;", "input a ; endinterface"), ("program p ( a , b ) ;", "input a ; output b ; endprogram"),
+             ("function void f ( ) ;", "endfunction"), ("task t ;", "endtask"), ("class c ;", "int x ; endclass"), ("package p ;", "parameter int P = 1 ; endpackage")]
+    for ver in ("1364-2001", "1800-2005", "1800-2017"):
+        bk = '`begin_keywords "%s"\n' % ver
+        for hd, rest in units:
+            for pr in probes[:2]:
+                ins.append(("sv", "%s%s\n`end_keywords\n%s\n%s\n" % (bk, hd, rest, pr), "region-in-trivia"))                       # closes inside
+                ins.append(("sv", "%s\n%s%s\n`end_keywords\n%s\n" % (hd, bk, rest, pr), "region-in-trivia"))                       # opens inside
+                ins.append(("sv", "%s\n%s`end_keywords\n%s\n%s\n" % (hd, bk, rest, pr), "region-in-trivia"))                      # opens and closes inside
+                ins.append(("sv", "%s%s\n%s`end_keywords\n%s\n`end_keywords\n%s\n" % (bk, hd, bk, rest, pr), "region-in-trivia"))  # nested
     # deterministic order, duplicates removed
     seen = set()
     out = []
@@ -83,7 +97,7 @@ def run(tier, seed):
         # the seed only selects the sub-sample; aimed inputs always included
         idx = list(range(total))
         rng.shuffle(idx)
-        keep = set(idx[:350]) | {i for i, x in enumerate(ins) if x[2] in ("aimed", "directive-in-trivia")}
+        keep = set(idx[:350]) | {i for i, x in enumerate(ins) if x[2] in ("aimed", "directive-in-trivia", "region-in-trivia")}
         ins = [x for i, x in enumerate(ins) if i in keep]
     hcases = []
     for i, (kind, text, src) in enumerate(ins):
